@@ -1,5 +1,8 @@
 import SeqIoModel.Proofs.FastaStream
 import SeqIoModel.Proofs.FastqStream
+import SeqIoModel.Proofs.FastaHistoryTotal
+import SeqIoModel.Proofs.FastqHistorySafe
+import SeqIoModel.Proofs.FastqHistoryGenuine
 /-!
 # C06 – readers are total: no panic, hang or fabricated record
 
@@ -62,5 +65,44 @@ theorem fastq_after_error_end (inp : List UInt8) (cap : Nat) (hcap : 3 ≤ cap) 
     Fastq.runNexts k (Fastq.mkReader inp cap pol script chunk) =
       (Fastq.specObs inp ++ List.replicate k Fastq.Obs.none).take k :=
   Fastq.fastq_next_stream_polGrows inp cap hcap pol hpol script hs chunk k
+
+/-- FASTA, full strength: for EVERY input, capacity ≥ 3, policy that answers more than it is passed
+or refuses, read script (failures of any kind at any call, interrupted reads), scripted seek failures
+and history of operations (reads of all kinds, set iteration, seeks, calls after errors and after the
+end): no observation is a panic or fuel exhaustion … -/
+theorem fasta_any_history_total (inp : List UInt8) (cap : Nat) (hcap : 3 ≤ cap) (pol : Pol)
+    (hpol : Fasta.PolWfPos pol) (script : List ReadEv) (chunk : Nat) (seekFails : List (Nat × IoKind))
+    (ops : List Fasta.Hist.Op) :
+    ∀ o ∈ Fasta.Hist.runM (Fasta.Hist.mkMStF inp cap pol script chunk seekFails) ops, o ≠ .panic ∧ o ≠ .fuel :=
+  Fasta.Hist.fasta_history_total inp cap hcap pol hpol script chunk seekFails ops
+
+/-- … and every record shown by any observation (next, owned, record-set iteration) is a record of
+the input (`Genuine`: head and lines of some record of S) – no fabricated or truncated record, also
+after errors (this is the statement the former finding D9 violated) -/
+theorem fasta_any_history_genuine (inp : List UInt8) (cap : Nat) (hcap : 3 ≤ cap) (pol : Pol)
+    (hpol : Fasta.PolWfPos pol) (script : List ReadEv) (chunk : Nat) (seekFails : List (Nat × IoKind))
+    (ops : List Fasta.Hist.Op) :
+    ∀ o ∈ Fasta.Hist.runM (Fasta.Hist.mkMStF inp cap pol script chunk seekFails) ops,
+      Fasta.Hist.Genuine (Fasta.Hist.items inp) o :=
+  Fasta.Hist.fasta_history_genuine inp cap hcap pol hpol script chunk seekFails ops
+
+/-- FASTQ, totality at full strength: every input, capacity ≥ 1, policy that answers more than it is
+passed or refuses, read script with failures anywhere, scripted seek failures, history: no panic, no
+fuel exhaustion -/
+theorem fastq_any_history_total (inp : List UInt8) (cap : Nat) (hcap : 1 ≤ cap) (pol : Pol)
+    (hpol : PolWf pol) (script : List ReadEv) (chunk : Nat) (seekFails : List (Nat × IoKind))
+    (ops : List Fastq.Hist.Op) :
+    ∀ o ∈ Fastq.Hist.runM (Fastq.Hist.mkM inp cap pol script chunk seekFails) ops, o ≠ .panic ∧ o ≠ .fuel :=
+  Fastq.fastq_history_total inp cap hcap pol hpol script chunk seekFails ops
+
+/-- FASTQ, genuine records: every record shown by any observation of any history is a record of S –
+for failure-free sources and policies that may refuse (the version for failing sources is in
+`FastqHistoryGenuine.lean` when the tree contains it; see the evidence) -/
+theorem fastq_any_history_genuine_partial (inp : List UInt8) (cap : Nat) (hcap : 3 ≤ cap) (pol : Pol)
+    (hpol : PolWf pol) (script : List ReadEv) (hs : NoFail script) (chunk : Nat)
+    (ops : List Fastq.Hist.Op) (hops : ∀ op ∈ ops, op.wf = true) :
+    ∀ o ∈ Fastq.Hist.runM (Fastq.Hist.mkM inp cap pol script chunk) ops,
+      ∀ x ∈ Fastq.recsOf o, x ∈ Fastq.allRecs inp :=
+  Fastq.fastq_history_genuine inp cap hcap pol hpol script hs chunk ops hops
 
 end SeqIo.Thm.C06
